@@ -20,9 +20,19 @@ def bounded(check, tier):
               "contract of splice/append at run time, operand unchanged, result memo-coherent" % (4 if deep else 3),
               bound="runs<=%d, run length<=2, new<=2 runs" % (4 if deep else 3))
     news = [mk(l, 65, 4) for l in layouts(2, 2)] + ["", "X", "XY", fmtstr("")]
-    for lens in layouts(4 if deep else 3, 2):
-        f = mk(lens)
+    lay = [(lens, False) for lens in layouts(4 if deep else 3, 2)]
+    # the same display cut into runs differently (uniform attributes), after the one-run value was used
+    lay += [(lens, True) for lens in layouts(3, 2) if len(lens) >= 2 and sum(lens) > 0]
+    lay = [((sum(lens),), True) for lens, u in lay if u][:0] + lay
+    seen_uniform = set()
+    for lens, uni in lay:
+        if uni and sum(lens) not in seen_uniform:
+            seen_uniform.add(sum(lens))
+            one = mk((sum(lens),), uniform=True)
+            s.contract_case(F.splice, dict(self=one, new_str="X", start=1, end=None), key=("uniform-one", sum(lens)))
+        f = mk(lens, uniform=uni)
         L = len(f.s)
+        lens = (lens, uni)
         for ni, new in enumerate(news):
             for start in range(0, L + 3):
                 for end in [None] + list(range(start, L + 3)):
